@@ -815,6 +815,7 @@ class Where(EnvironmentFilter):
     def _context_len(self,firstn) -> int:
         try:
             context = firstn[0].get('context')
+            if isinstance(context,str): return 1 #a string context is one feature not one feature per character
             return try_else(lambda: len(context), 1) if context or context == 0 else 0
         except:
             return 0
